@@ -222,6 +222,17 @@ def fam_storm(rng, pid):
     return p
 
 
+def fam_flood(rng, pid):
+    """free-running only: thousands of failing jobs on a wide pool, nobody reads Errs(), only the quiescence line is logged - many
+    pool goroutines report an error at the same moment (the window of a blocking hand-over in sendError and the like)"""
+    wk = rng.choice(WKS)
+    cfg = {'idgen': False, 'wk': wk, 'conc': rng.choice([4, 8, 8]), 'queues': [rng.choice(['fifo', 'fifo', 'prio'])], 'errs_reader': False,
+           'flood': 'panic' if wk == 'plain' else rng.choice(['err', 'err', 'panic']), 'quiet': True}
+    n = rng.choice([12000, 20000])
+    return {'id': pid, 'family': 'flood', 'cfg': cfg, 'clients': [{'name': 'c1', 'ops': [{'op': 'Flood', 'q': 0, 'job': 1, 'n': n}, {'op': 'WUF'}]}],
+            'outcome': {}, 'sched': {'kind': 'free', 'seed': rng.randrange(1 << 30)}}
+
+
 def fam_wq(rng, pid):
     """small programs on a gate-instrumented queue (kinds wfifo / wprio): every read of the queue length and every dequeue inside the
     library is a scheduling point, so the windows around them (condition checks of the event loop, of WaitUntilFinished, of
@@ -727,7 +738,7 @@ def life_exhaustive(maxlen, seed, prefix):
     return out
 
 
-FAMILIES = {'wq': fam_wq, 'cycles': fam_cycles, 'storm': fam_storm, 'stop2': fam_stop2, 'reject': fam_reject, 'multim': fam_multim, 'life': fam_life, 'distbind': fam_distbind, 'bind2': fam_bind2, 'tune': fam_tune, 'adapter': fam_adapter, 'dist': fam_dist, 'basic': fam_basic, 'barrier': fam_barrier, 'ctl': fam_ctl, 'cancel': fam_cancel, 'batch': fam_batch,
+FAMILIES = {'flood': fam_flood, 'wq': fam_wq, 'cycles': fam_cycles, 'storm': fam_storm, 'stop2': fam_stop2, 'reject': fam_reject, 'multim': fam_multim, 'life': fam_life, 'distbind': fam_distbind, 'bind2': fam_bind2, 'tune': fam_tune, 'adapter': fam_adapter, 'dist': fam_dist, 'basic': fam_basic, 'barrier': fam_barrier, 'ctl': fam_ctl, 'cancel': fam_cancel, 'batch': fam_batch,
             'handle': fam_handle, 'pool': fam_pool, 'multi': fam_multi}
 
 
